@@ -1353,7 +1353,7 @@ pub fn gen_odd_known_customs(m: &mut MSpec, rng: &mut Rng) {
             5 => vec![0x01, 0x03, b'f', b'o', b'o', 0x00],  // unknown field name
             _ => junk(rng, 24),
         };
-        m.customs.push(CustomSpec { name: "producers".into(), data, before: *rng.pick(&places) });
+        m.customs.push(CustomSpec { name: "producers".into(), data, before: *rng.pick(&places), name_len_pad: 0 });
     }
     if rng.chance(2, 3) {
         let data = match rng.below(7) {
@@ -1365,10 +1365,10 @@ pub fn gen_odd_known_customs(m: &mut MSpec, rng: &mut Rng) {
             5 => vec![0x02, 0x04, 0x01, 0x63, 0x01, 0x00],  // locals of function 99: cut off
             _ => junk(rng, 24),
         };
-        m.customs.push(CustomSpec { name: "name".into(), data, before: *rng.pick(&places) });
+        m.customs.push(CustomSpec { name: "name".into(), data, before: *rng.pick(&places), name_len_pad: 0 });
     }
     if rng.chance(1, 3) {
-        m.customs.push(CustomSpec { name: "target_features".into(), data: junk(rng, 12), before: *rng.pick(&places) });
+        m.customs.push(CustomSpec { name: "target_features".into(), data: junk(rng, 12), before: *rng.pick(&places), name_len_pad: 0 });
     }
 }
 
@@ -1528,7 +1528,7 @@ pub fn gen_customs(m: &mut MSpec, rng: &mut Rng) {
         if mix_debug && rng.chance(1, 3) {
             let name = rng.pick(&DEBUG_NAMES).to_string();
             let data: Vec<u8> = if name == ".debug_info" { vec![] } else { (0..rng.below(12)).map(|_| rng.next() as u8).collect() };
-            m.customs.push(CustomSpec { name, data, before: *rng.pick(&places) });
+            m.customs.push(CustomSpec { name, data, before: *rng.pick(&places), name_len_pad: 0 });
             continue;
         }
         let mut name = if rng.chance(1, 6) && i > 0 { m.customs[rng.below(m.customs.len() as u64) as usize].name.clone() } else { rng.pick(&NAMES).to_string() };
@@ -1543,7 +1543,10 @@ pub fn gen_customs(m: &mut MSpec, rng: &mut Rng) {
         if rng.chance(1, 8) {
             data.clear();
         }
-        m.customs.push(CustomSpec { name, data, before: *rng.pick(&places) });
+        // names whose length needs two or three LEB bytes, and short names with a padded length
+        let name = if rng.chance(1, 12) { format!("{}{}", name, "x".repeat(if rng.chance(1, 6) { 16384 + rng.below(40) as usize } else { 120 + rng.below(20) as usize })) } else { name };
+        let name_len_pad = if rng.chance(1, 10) { 1 + rng.below(3) as u8 } else { 0 };
+        m.customs.push(CustomSpec { name, data, before: *rng.pick(&places), name_len_pad });
     }
 }
 
